@@ -1051,6 +1051,15 @@ def rule_file2c(prog, rep, tier, anchor="conformance._conform_filename"):
                     reason = "rendered trees equal (%s)" % src(a, 50)
             elif isinstance(a, ast.Attribute) and a.attr == "replaced" and p is False:
                 reason = reason or "the transformer reported no replacement"
+        if reason is None:
+            # a package predicate decided the skip: acceptable when each way it can come out true passes an AST-equality
+            # test (cmp_ast(..) true on that path of the predicate)
+            for a, p in fs:
+                if isinstance(a, ast.Call) and p is True:
+                    alts = prog.pred_paths(a, True)
+                    if alts and all(any(isinstance(x, ast.Call) and (x.func.id if isinstance(x.func, ast.Name) else getattr(x.func, "attr", "")) in ("cmp_ast", "compare_ast", "ast_equal") and px is True
+                                        for x, px in alt) for alt in alts):
+                        reason = "every way %s comes out true passes a syntax-tree equality test" % src(a.func)
         desc = ",".join("%s%s" % ("" if l[1] else "!", src(l[0], 40)) for nd, l in path if l is not None and l[0] not in ("iter", "except"))
         if reason:
             rep.holds("FILE-2c", "unwritten path [%s]" % desc, loc(prog, path[-2][0].stmt) if path[-2][0].stmt is not None else anchor, reason)
